@@ -119,3 +119,10 @@ Fixpoint marg_ok (ln_n tol : ext) (groups : list (list ext)) (outs : list ext) :
   end.
 Definition chk_marg (c : nat * list ext * ext * ext * list ext) : bool :=
   let '(n, terms, ln_n, tol, outs) := c in marg_ok ln_n tol (blocks n terms) outs.
+
+(* AugmentedFlowProposal.log_prior: (model log-prior, log N(e_k) for every augment parameter, tolerance, the value the real
+   log_prior returned) - the model's full_prior at IEEE values *)
+Definition chk_augprior (c : ext * list ext * ext * ext) : bool :=
+  let '(m, es, tol, top) := c in
+  let v := full_prior ext_add zero m es in
+  if is_fin v && is_fin top then ge (ext_add v tol) top && ge (ext_add top tol) v else ext_eqb v top.
